@@ -124,13 +124,19 @@ def run(ctx):
         if mism:
             k0, s0, d0 = mism[0]
             node = k0.split("@")[0]
-            key = "C14/type:sum-of-empty" if kind == "sum-of-empty" or (node == "Call" and s0 == "SecretInteger" and d0 == ["int"]) else f"C14/type:{node}:{s0}->{'|'.join(d0)}"
+            fixed_kinds = {k for k, _ in strict_gen.FIXED}
+            if kind == "sum-of-empty" or (node == "Call" and s0 == "SecretInteger" and d0 == ["int"]):
+                key = "C14/type:sum-of-empty"
+            elif kind in fixed_kinds:
+                key = f"C14/type:{kind}"
+            else:
+                key = f"C14/type:{node}:{s0}->{'|'.join(d0)}"
             vlib.report_failure(ctx, key, f"static type {s0} at {k0}, but abstract execution binds {d0} there",
                                 dict(case=dict(kind="strict-program", family=kind, source_text=text), mismatches=mism[:5],
                                      how_to_replay="PYTHONPATH=<repo> /venv/bin/python /verif/tools/impl_strict.py  (stdin: JSON list with this text)"))
         if clean and r["dynamic_outcome"] != "ok":
             exc = r["dynamic_outcome"].split(":")[1] if ":" in r["dynamic_outcome"] else r["dynamic_outcome"]
-            vlib.report_failure(ctx, f"C14/raise:{kind if kind in ('unary-plus', 'integer-literal') else exc}",
+            vlib.report_failure(ctx, f"C14/raise:{kind if kind in {k for k, _ in strict_gen.FIXED} else exc}",
                                 f"no type error and no syntax restriction, but abstract execution ends with {r['dynamic_outcome']}",
                                 dict(case=dict(kind="strict-program", family=kind, source_text=text), observed=r["dynamic_outcome"]))
     ctx.note(f"validate: {len(progs)} strict-subset programs, {nnodes} typed nodes compared with the classes bound at run time: "
